@@ -638,6 +638,10 @@ func (fc *FnCtx) assignAnchors(x *ssa.Store) {
 	if fc.contract == nil || len(fc.contract.Asserts) == 0 {
 		return
 	}
+	if fa, ok := x.Addr.(*ssa.FieldAddr); ok {
+		fc.fieldAssignAnchors(x, fa)
+		return
+	}
 	a, ok := x.Addr.(*ssa.Alloc)
 	if !ok || a.Comment == "" {
 		return
@@ -671,6 +675,62 @@ func (fc *FnCtx) assignAnchors(x *ssa.Store) {
 		}
 		// (several variables may share a name: the clause then applies to the
 		// k-th store of each of them)
+		aa.Matched++
+		sc := fc.funcScope(fc.env, fc.entryEnv, nil)
+		sc.pos = x.Pos()
+		sc.mode = "site"
+		if aa.Set != nil {
+			t, _ := sc.tr(aa.Set.E)
+			if _, ok := fc.ghostTypes[aa.Set.Name]; !ok {
+				fc.fail("set of undeclared ghost %s", aa.Set.Name)
+			}
+			fc.assign("g_"+aa.Set.Name, t)
+		} else {
+			fc.assert("assert", fmt.Sprintf("%s:assign(%s)#%d.assert#%d", fc.name, aa.Var, aa.Ord, aa.Cl.N), sc.trBool(aa.Cl.E), aa.Cl.Src, x.Pos(), false)
+		}
+	}
+}
+
+func fieldAddrName(fa *ssa.FieldAddr) string {
+	st, ok := fa.X.Type().Underlying().(*types.Pointer).Elem().Underlying().(*types.Struct)
+	if !ok {
+		return ""
+	}
+	return "." + st.Field(fa.Field).Name()
+}
+
+// fieldAssignAnchors runs "at assign .f#k" clauses after the k-th store (in
+// source order) to a field named f.
+func (fc *FnCtx) fieldAssignAnchors(x *ssa.Store, fa *ssa.FieldAddr) {
+	name := fieldAddrName(fa)
+	if name == "" {
+		return
+	}
+	if fc.fieldStoreOrd == nil {
+		fc.fieldStoreOrd = map[*ssa.Store]int{}
+		byName := map[string][]*ssa.Store{}
+		for _, b := range fc.fn.Blocks {
+			for _, in := range b.Instrs {
+				if st, ok := in.(*ssa.Store); ok {
+					if f, ok := st.Addr.(*ssa.FieldAddr); ok && st.Pos().IsValid() {
+						n := fieldAddrName(f)
+						byName[n] = append(byName[n], st)
+					}
+				}
+			}
+		}
+		for _, sts := range byName {
+			sort.SliceStable(sts, func(i, j int) bool { return sts[i].Pos() < sts[j].Pos() })
+			for i, st := range sts {
+				fc.fieldStoreOrd[st] = i + 1
+			}
+		}
+	}
+	ord := fc.fieldStoreOrd[x]
+	for _, aa := range fc.contract.Asserts {
+		if aa.Anchor != "assign" || aa.Var != name || aa.Ord != ord {
+			continue
+		}
 		aa.Matched++
 		sc := fc.funcScope(fc.env, fc.entryEnv, nil)
 		sc.pos = x.Pos()
